@@ -24,7 +24,7 @@ def prepare(crate, repo, tag=''):
         rel = os.path.relpath(rootd, src)
         os.makedirs(os.path.join(dst, rel), exist_ok=True)
         for f in files:
-            if f == 'Cargo.lock': continue
+            if f in ('Cargo.lock', 'harness_list.rs', 'harness_index.json', 'only.txt') or f.endswith('.new'): continue
             sp = os.path.join(rootd, f); dp = os.path.join(dst, rel, f)
             data = open(sp, 'rb').read()
             if f == 'Cargo.toml':
